@@ -4,5 +4,11 @@ mod = importlib.import_module('props.'+sys.argv[1])
 job = json.loads(sys.argv[2])
 r = mod.run(job, sys.argv[3] if len(sys.argv)>3 else 'quick')
 for k,v in r.items():
-    if k in ('encoded',): continue
-    print(k, ':', json.dumps(v, default=str)[:1500])
+    if k in ('encoded','cex'): continue
+    print(k, ':', json.dumps(v, default=str)[:1200])
+seen=set()
+for c in r.get('cex', []):
+    if c.get('key') in seen: continue
+    seen.add(c.get('key'))
+    print('CEX', c.get('key'), 'reproduced=', c.get('reproduced'), '::', c.get('detail')[:900])
+    if '-v' in sys.argv: print('   inputs', json.dumps(c.get('inputs'))[:1500])
